@@ -512,7 +512,7 @@ func c19Pairing(c *core.Ctx) {
 // possibly-nil holder load, and the direction test uses the same quantity
 // that armed the timers.
 func timerNilSafe(c *core.Ctx, R string) {
-	c.Rule(R, "no Timer method that dereferences its receiver (Refresh, Stop, Unref) is invoked on holder.Load() unless a non-nil test dominates it or the site is licensed by a test of the same discriminator (s.protocol) under which onOpen armed that holder; ClearTimeout/ClearInterval are nil-safe")
+	c.Rule(R, "no Timer method that dereferences its receiver (Refresh, Stop, Unref) is invoked on holder.Load() unless a non-nil test dominates it or the site is licensed by a test of the same discriminator (s.protocol) under which onOpen armed that holder — a field only the constructor assigns; ClearTimeout/ClearInterval are nil-safe")
 	armed := map[string]string{} // holder -> "3" or "4": revision under which onOpen arms it
 	if oo := c.Fn(R, "engine.(*socket).onOpen"); oo != nil {
 		g := oo.Graph()
@@ -548,6 +548,15 @@ func timerNilSafe(c *core.Ctx, R string) {
 		c.Check(R, "engine.(*socket).onOpen/arming-table", oo.Pos(), armed["socket.pingTimeoutTimer"] == "3" && armed["socket.pingIntervalTimer"] == "4",
 			keyf("onOpen arms %v keyed on s.protocol", armed))
 	}
+	// the discriminator is fixed for the session's life: a site licensed by `s.protocol == k` is safe only if the
+	// value tested there is the one onOpen saw — the field is written by the constructor and by nothing else
+	// (re-deriving it from the current transport lets an upgrade request with another EIO flip it)
+	nw := 0
+	for _, ua := range fieldAssignsAnywhere(c, "socket.protocol") {
+		nw++
+		c.Check(R, keyf("%s/writes(socket.protocol)", ua.U.Key), ua.Stmt.Pos(), ua.U.Key == "engine.(*socket).Construct", "the revision that keys the heartbeat timers is assigned only by the constructor")
+	}
+	c.Need(R, "assignments of socket.protocol", nw, 1)
 	n := 0
 	for _, u := range c.P.Units {
 		info := u.Info()
